@@ -65,6 +65,12 @@ Min(x, y) == IF x < y THEN x ELSE y
 
 \* Builder.Func / Struct().Method / ExportFunc: cached mocker unless canceled
 GetMk(b, t) == IF mk[b][t].ex /\ ~mk[b][t].canceled THEN mk[b][t] ELSE [NoMk EXCEPT !.ex = TRUE]
+\* via = "lookup": the instruction starts with a lookup in the builder (a canceled mocker is replaced by a fresh one);
+\* via = "held": the test kept the mocker handle (m := b.Func(f)) and uses it again, canceled or not - it is still the
+\* object in the builder's cache, so Reset reaches it. A successful apply makes a canceled mocker active again (fix 734de8f).
+Vias == IF "Held" \in Ops THEN {"lookup", "held"} ELSE {"lookup"}
+Handle(b, t, via) == IF via = "held" THEN mk[b][t] ELSE GetMk(b, t)
+CanUse(b, t, via) == via = "lookup" \/ mk[b][t].ex
 
 \* patch.replaceFunc + Guard.Apply: a previous patch of t is unpatched through the table (its
 \* captured bytes are written back), the bytes now at the entry are captured, the jump is written.
@@ -134,34 +140,34 @@ Log(rec) == hist' = Append(hist, rec)
 (* ---------------- actions ---------------- *)
 
 \* handle.Apply(cb): drops the handle's When object (since fix ccd7848), re-patches
-Apply(b, t, c) ==
-    /\ "Apply" \in Ops
-    /\ LET m == GetMk(b, t) IN LET pr == PatchRec(t, [k |-> "cb", c |-> c, w |-> Wrapped]) IN
+Apply(b, t, c, via) ==
+    /\ "Apply" \in Ops /\ CanUse(b, t, via)
+    /\ LET m == Handle(b, t, via) IN LET pr == PatchRec(t, [k |-> "cb", c |-> c, w |-> Wrapped]) IN
        /\ entry' = pr.entry /\ patches' = pr.patches
-       /\ mk' = [mk EXCEPT ![b][t] = [m EXCEPT !.imp = [k |-> "cb", c |-> c], !.guard = pr.guard, !.when = None]]
+       /\ mk' = [mk EXCEPT ![b][t] = [m EXCEPT !.imp = [k |-> "cb", c |-> c], !.guard = pr.guard, !.when = None, !.canceled = FALSE]]
     /\ Instruct(b, t, [k |-> "cb", c |-> c])
     /\ UNCHANGED <<ph, phr, lg>>
-    /\ Log([op |-> "Apply", b |-> b, t |-> t, c |-> c, obs |-> Obs(exp', phr'), panic |-> ""])
+    /\ Log([op |-> "Apply", b |-> b, t |-> t, c |-> c, via |-> via, obs |-> Obs(exp', phr'), panic |-> ""])
 
 \* handle.Origin(&placeholder).Apply(callback that calls the placeholder)
-ApplyO(b, t) ==
-    /\ "ApplyO" \in Ops
-    /\ LET m == GetMk(b, t) IN LET pr == PatchRec(t, [k |-> "cbo", w |-> Wrapped]) IN
+ApplyO(b, t, via) ==
+    /\ "ApplyO" \in Ops /\ CanUse(b, t, via)
+    /\ LET m == Handle(b, t, via) IN LET pr == PatchRec(t, [k |-> "cbo", w |-> Wrapped]) IN
        /\ entry' = pr.entry /\ patches' = pr.patches
        /\ ph' = [ph EXCEPT ![t] = "T"]
-       /\ mk' = [mk EXCEPT ![b][t] = [m EXCEPT !.imp = [k |-> "cbo"], !.guard = pr.guard, !.when = None, !.origin = TRUE]]
+       /\ mk' = [mk EXCEPT ![b][t] = [m EXCEPT !.imp = [k |-> "cbo"], !.guard = pr.guard, !.when = None, !.origin = TRUE, !.canceled = FALSE]]
     /\ Instruct(b, t, [k |-> "cbo"])
     /\ phr' = [phr EXCEPT ![t] = "T"]
     /\ UNCHANGED lg
-    /\ Log([op |-> "ApplyO", b |-> b, t |-> t, obs |-> Obs(exp', phr'), panic |-> ""])
+    /\ Log([op |-> "ApplyO", b |-> b, t |-> t, via |-> via, obs |-> Obs(exp', phr'), panic |-> ""])
 
 \* stub instructions; kind in {"Return","Returns","When"}:
 \*   Return : handle.Return(rs[1]).AndReturn(rs[2])...
 \*   Returns: handle.Returns(rs[1], ..., rs[n])
 \*   When   : handle.When(a).Return(rs[1]).AndReturn(rs[2])...
-Stub(kind, b, t, a, rs) ==
-    /\ kind \in Ops
-    /\ LET m == GetMk(b, t) IN
+Stub(kind, b, t, a, rs, via) ==
+    /\ kind \in Ops /\ CanUse(b, t, via)
+    /\ LET m == Handle(b, t, via) IN
        IF m.when = None
        THEN \* CreateWhen ; whens ; doApply(MakeFunc(m.callback))
             LET w == IF kind = "When" THEN [def |-> None, conds |-> <<NewMatcher(a, rs)>>, cur |-> "cond"]
@@ -170,7 +176,7 @@ Stub(kind, b, t, a, rs) ==
             LET pr == PatchRec(t, MfFv(b, t)) IN
             /\ entry' = pr.entry /\ patches' = pr.patches
             /\ ph' = [ph EXCEPT ![t] = IF m.origin THEN "T" ELSE @]
-            /\ mk' = [mk EXCEPT ![b][t] = [m EXCEPT !.imp = [k |-> "mf"], !.guard = pr.guard, !.when = w]]
+            /\ mk' = [mk EXCEPT ![b][t] = [m EXCEPT !.imp = [k |-> "mf"], !.guard = pr.guard, !.when = w, !.canceled = FALSE]]
        ELSE \* the existing When object is extended; nothing is re-applied
             LET w0 == m.when IN
             LET w == IF kind = "When" THEN [w0 EXCEPT !.conds = Append(@, NewMatcher(a, rs)), !.cur = "cond"]
@@ -186,19 +192,19 @@ Stub(kind, b, t, a, rs) ==
                        ELSE [k |-> "stub", def |-> NewMatcher(AnyA, rs), conds |-> <<>>]) IN
        Instruct(b, t, e2)
     /\ UNCHANGED <<phr, lg>>
-    /\ Log([op |-> kind, b |-> b, t |-> t, a |-> a, rs |-> rs, obs |-> Obs(exp', phr'), panic |-> ""])
+    /\ Log([op |-> kind, b |-> b, t |-> t, a |-> a, rs |-> rs, via |-> via, obs |-> Obs(exp', phr'), panic |-> ""])
 
 \* handle.Cancel() (the lookup may create a fresh, never applied mocker)
 CancelMk(m) == [m EXCEPT !.when = None, !.origin = FALSE, !.canceled = TRUE]
-Cancel(b, t) ==
-    /\ "Cancel" \in Ops
-    /\ LET m == GetMk(b, t) IN
+Cancel(b, t, via) ==
+    /\ "Cancel" \in Ops /\ CanUse(b, t, via)
+    /\ LET m == Handle(b, t, via) IN
        /\ entry' = [entry EXCEPT ![t] = IF m.guard # None THEN m.guard.ob ELSE @]
        /\ mk' = [mk EXCEPT ![b][t] = CancelMk(m)]
     /\ exp' = [exp EXCEPT ![t] = IF cfg[b][t] THEN Orig ELSE @]
     /\ cfg' = [cfg EXCEPT ![b][t] = FALSE]
     /\ UNCHANGED <<patches, ph, phr, touched, lg>>
-    /\ Log([op |-> "Cancel", b |-> b, t |-> t, obs |-> Obs(exp', phr'), panic |-> ""])
+    /\ Log([op |-> "Cancel", b |-> b, t |-> t, via |-> via, obs |-> Obs(exp', phr'), panic |-> ""])
 
 \* Builder.Reset(): Cancel on every cached mocker (order irrelevant: the writes commute)
 Reset(b) ==
@@ -270,11 +276,11 @@ Finish == Len(hist) = MaxOps /\ hist' = Append(hist, [op |-> "End"]) /\ UNCHANGE
 
 Next == \/ Finish
         \/ /\ Len(hist) < MaxOps
-           /\ \/ \E b \in B, t \in T, c \in CB : Apply(b, t, c)
-              \/ \E b \in B, t \in T : ApplyO(b, t)
-              \/ \E b \in B, t \in T, rs \in RS : Stub("Return", b, t, AnyA, rs) \/ Stub("Returns", b, t, AnyA, rs)
-              \/ \E b \in B, t \in T, a \in A \cup {AnyA}, rs \in RS : Stub("When", b, t, a, rs)
-              \/ \E b \in B, t \in T : Cancel(b, t)
+           /\ \/ \E b \in B, t \in T, c \in CB, via \in Vias : Apply(b, t, c, via)
+              \/ \E b \in B, t \in T, via \in Vias : ApplyO(b, t, via)
+              \/ \E b \in B, t \in T, rs \in RS, via \in Vias : Stub("Return", b, t, AnyA, rs, via) \/ Stub("Returns", b, t, AnyA, rs, via)
+              \/ \E b \in B, t \in T, a \in A \cup {AnyA}, rs \in RS, via \in Vias : Stub("When", b, t, a, rs, via)
+              \/ \E b \in B, t \in T, via \in Vias : Cancel(b, t, via)
               \/ \E b \in B : Reset(b)
               \/ \E t \in T, a \in A : Call(t, a) \/ CallPh(t, a)
               \/ \E n \in {"OpenDebug", "CloseDebug", "OpenTrace", "CloseTrace"} : LogOp(n)
